@@ -29,7 +29,12 @@ impl Sup {
     pub fn build(&self) -> Box<dyn SupplyBound> {
         match *self {
             Sup::Dedicated => Box::new(supply::Dedicated::new()),
+            // (both public ways of making a reservation: the constructor and the struct literal)
+            Sup::Periodic { q, p } if (q + p) % 2 == 1 => Box::new(supply::Periodic { period: Duration::from(p), budget: Service::from(q) }),
             Sup::Periodic { q, p } => Box::new(supply::Periodic::new(Service::from(q), Duration::from(p))),
+            Sup::Constrained { q, d, p } if (q + d + p) % 2 == 1 => {
+                Box::new(supply::Constrained { period: Duration::from(p), budget: Service::from(q), deadline: Duration::from(d) })
+            }
             Sup::Constrained { q, d, p } => {
                 Box::new(supply::Constrained::new(Service::from(q), Duration::from(d), Duration::from(p)))
             }
